@@ -14,6 +14,7 @@ mod fam_vss;
 mod fam_srv;
 mod fam_shapes;
 mod fam_viss;
+mod fam_prov;
 mod util;
 
 use codec::Tok;
